@@ -1559,9 +1559,9 @@ class VM:
                 # Use comparator if provided
                 if comparator is not UNDEFINED:
                     result = vm._call_callback(comparator, [a, b])
-                    # Convert to integer for cmp_to_key
-                    num = to_number(result) if result is not UNDEFINED else 0
-                    return int(num) if isinstance(num, (int, float)) else 0
+                    # Only the sign of ToNumber(result) matters; NaN counts as 0
+                    num = vm._to_number(result)
+                    return -1 if num < 0 else (1 if num > 0 else 0)
                 return default_compare(a, b)
 
             # Sort using Python's sort with custom key
